@@ -20,7 +20,6 @@ VERIF = os.path.dirname(os.path.dirname(os.path.abspath(__file__)))
 REPO = os.environ.get("VERIF_REPO", "/repo")
 COQ = os.path.join(VERIF, "coq")
 OCAML = os.path.join(VERIF, "ocaml")
-DRIVER = os.path.join(OCAML, "driver")
 PY = "/venv/bin/python"
 
 os.environ.setdefault("PYTHONHASHSEED", "0")
@@ -126,9 +125,22 @@ def translate() -> str:
 
 
 def ensure_makefile() -> None:
-    mk = os.path.join(COQ, "Makefile")
+    """_CoqProject lists every .v file present under coq/ (regenerated when the set
+    changes), so a new model/proof file needs no registration."""
+    files = []
+    for root, _, fs in os.walk(COQ):
+        for f in fs:
+            if f.endswith(".v"):
+                files.append(os.path.relpath(os.path.join(root, f), COQ))
+    if "Gen/Tables.v" not in files:
+        files.append("Gen/Tables.v")
+    text = "-Q . HT\n" + "\n".join(sorted(files)) + "\n"
     cp = os.path.join(COQ, "_CoqProject")
-    if not os.path.exists(mk) or os.path.getmtime(mk) < os.path.getmtime(cp):
+    old = open(cp).read() if os.path.exists(cp) else None
+    mk = os.path.join(COQ, "Makefile")
+    if old != text or not os.path.exists(mk):
+        with open(cp, "w") as f:
+            f.write(text)
         rc, out = _run(["coq_makefile", "-f", "_CoqProject", "-o", "Makefile"], COQ, 120)
         if rc != 0:
             raise BuildError("coq_makefile failed", out)
@@ -140,21 +152,37 @@ def make(targets: list[str], timeout: int = 1500, keep_going: bool = False) -> t
     return _run(cmd, COQ, timeout)
 
 
-def build_driver() -> None:
-    """(Re)build the extracted model + OCaml driver when model.ml is newer."""
-    rc, out = make(["Extract/Extract.vo"])
+def build_driver(name: str = "core") -> str:
+    """(Re)build the extracted model `name` + its OCaml driver when out of date.
+    coq/Extract/Extract<Name>.v must contain  Extraction "../ocaml/model_<name>.ml" <run>.
+    where <run> : sx -> sx; the run function's name is read from that line."""
+    cap = name[0].upper() + name[1:]
+    vfile = os.path.join(COQ, "Extract", f"Extract{cap}.v")
+    with open(vfile) as f:
+        m = re.search(r'Extraction\s+"\.\./ocaml/model_%s\.ml"\s+(\w+)\s*\.' % re.escape(name), f.read())
+    if not m:
+        raise BuildError(f"no Extraction line in Extract{cap}.v", "")
+    runfn = m.group(1)
+    translate()
+    rc, out = make([f"Extract/Extract{cap}.vo"])
     if rc != 0:
-        raise BuildError("model/extraction build failed", out)
-    ml = os.path.join(OCAML, "model.ml")
-    drv_src = os.path.join(OCAML, "driver.ml")
-    if (not os.path.exists(DRIVER)
-            or os.path.getmtime(DRIVER) < os.path.getmtime(ml)
-            or os.path.getmtime(DRIVER) < os.path.getmtime(drv_src)):
+        raise BuildError(f"model/extraction build failed ({name})", out)
+    ml = os.path.join(OCAML, f"model_{name}.ml")
+    tmpl = os.path.join(OCAML, "driver_template.ml")
+    drv = os.path.join(OCAML, f"driver_{name}")
+    if (not os.path.exists(drv) or os.path.getmtime(drv) < os.path.getmtime(ml)
+            or os.path.getmtime(drv) < os.path.getmtime(tmpl)):
+        with open(tmpl) as f:
+            src = f.read().replace("MODEL_MODULE", f"Model_{name}").replace("RUN_FUNCTION", runfn)
+        with open(os.path.join(OCAML, f"driver_{name}.ml"), "w") as f:
+            f.write(src)
         rc, out = _run(
             ["ocamlfind", "ocamlopt", "-w", "-a", "-O3", "-package", "str",
-             "model.mli", "model.ml", "driver.ml", "-o", "driver"], OCAML, 600)
+             f"model_{name}.mli", f"model_{name}.ml", f"driver_{name}.ml", "-o", f"driver_{name}"],
+            OCAML, 600)
         if rc != 0:
-            raise BuildError("ocaml driver build failed", out)
+            raise BuildError(f"ocaml driver build failed ({name})", out)
+    return drv
 
 
 _ASSUME_RE = re.compile(r"^(Closed under the global context|Axioms:)", re.M)
@@ -218,12 +246,12 @@ def prove(prop: str) -> dict:
 # ------------------------------------------------------------------------------------
 # model runner (extracted OCaml)
 # ------------------------------------------------------------------------------------
-def run_model(cases: list[Any], nproc: int = 8) -> list[Any]:
+def run_model(cases: list[Any], nproc: int = 8, driver: str = "core") -> list[Any]:
     """cases: list of sx values (nested int lists).  Returns the list of results."""
     if not cases:
         return []
     with Lock():
-        build_driver()
+        DRIVER = build_driver(driver)
     n = len(cases)
     nproc = max(1, min(nproc, (n + 199) // 200))
     chunks = [list(range(i, n, nproc)) for i in range(nproc)]
@@ -436,13 +464,14 @@ def differential(ctx: Ctx, name: str, cases: list[Any], to_sx: Callable[[Any], A
                  impl: Callable[[Any], Any], oracle: Callable[[Any, Any], str | None] | None = None,
                  decode: Callable[[Any], Any] = lambda x: x,
                  nontrivial: Callable[[Any], bool] = lambda c: True,
-                 kind: Callable[[Any], str | None] = lambda c: None) -> None:
+                 kind: Callable[[Any], str | None] = lambda c: None,
+                 driver: str = "core") -> None:
     """Run implementation and extracted model on the same cases.
     impl(case) -> canonical value (exceptions must be mapped by impl itself);
     decode(model sx result) -> canonical value of the same shape;
     oracle(case, impl_value) -> None if the property holds on this case, else a message
     (independent of the model: specification / html.parser / ...)."""
-    model_out = run_model([to_sx(c) for c in cases])
+    model_out = run_model([to_sx(c) for c in cases], driver=driver)
     disagreements = []
     for c, m in zip(cases, model_out):
         ctx.count(c, nontrivial(c), kind(c))
